@@ -276,28 +276,42 @@ func runC04(c *Ctx) {
 	rd := p.MustFunc("grpcExtractErrorFromTrailer")
 	enc := p.MustFunc("grpcPercentEncode")
 	dec := p.MustFunc("grpcPercentDecode")
-	written := map[string]bool{}
-	for _, m := range HeaderMutations(wr) {
-		if m.Key == nil {
-			continue
+	// the writer / reader and the helpers only they call (a block may have been extracted)
+	within := func(root *ssa.Function) []*ssa.Function {
+		out := []*ssa.Function{root}
+		for _, fn := range p.Funcs {
+			if fn != root && p.inScope(fn) && p.OnlyCalledWithin(fn, root) {
+				out = append(out, fn)
+			}
 		}
-		if ks, ok := constKeys(m.Key); ok {
-			for _, k := range ks {
-				written[textproto.CanonicalMIMEHeaderKey(k)] = true
+		return out
+	}
+	written := map[string]bool{}
+	for _, wfn := range within(wr) {
+		for _, m := range HeaderMutations(wfn) {
+			if m.Key == nil {
+				continue
+			}
+			if ks, ok := constKeys(m.Key); ok {
+				for _, k := range ks {
+					written[textproto.CanonicalMIMEHeaderKey(k)] = true
+				}
 			}
 		}
 	}
 	read := map[string]bool{}
 	deleted := map[string]bool{}
-	for _, call := range Calls(rd) {
-		if IsCallTo(call, "(net/http.Header).Get", "(net/http.Header).Values") {
-			if k, ok := ConstString(call.Common().Args[1]); ok {
-				read[textproto.CanonicalMIMEHeaderKey(k)] = true
+	for _, rfn := range within(rd) {
+		for _, call := range Calls(rfn) {
+			if IsCallTo(call, "(net/http.Header).Get", "(net/http.Header).Values") {
+				if k, ok := ConstString(call.Common().Args[1]); ok {
+					read[textproto.CanonicalMIMEHeaderKey(k)] = true
+				}
 			}
-		}
-		if IsCallTo(call, "(net/http.Header).Del") {
-			if k, ok := ConstString(call.Common().Args[1]); ok {
-				deleted[textproto.CanonicalMIMEHeaderKey(k)] = true
+			if IsCallTo(call, "(net/http.Header).Del") {
+				if k, ok := ConstString(call.Common().Args[1]); ok {
+					deleted[textproto.CanonicalMIMEHeaderKey(k)] = true
+				}
 			}
 		}
 	}
